@@ -323,8 +323,8 @@ def step (st : St) (line : String) : St × String :=
             let peer := st.ghost x.other
             if !prefixCapped g'.fetched g'.fetchedCaps g'.reasm.done then
               (g', some s!"fetched message #{g'.fetched.length} is not the reassembly of the accepted segments (got {m.length} bytes)")
-            else if st.wellBehaved && !Spec.isPrefix g'.fetched peer.submitted then
-              (g', some s!"fetched message #{g'.fetched.length} differs from the message submitted at the other end")
+            else if st.wellBehaved && !prefixCapped g'.fetched g'.fetchedCaps peer.submitted then
+              (g', some s!"fetched message #{g'.fetched.length} differs from the message submitted at the other end (cut to the caller's buffer of {cap} bytes)")
             else (g', none)
           | _ => (g, none)
         let ora := wb why (res.startsWith "err")
